@@ -20,6 +20,7 @@ CONSTANTS MaxBlocks,      \* 1..3
           PatchKinds,     \* subset of patch kinds
           FnLayouts,      \* subset of {"none","one","split"}
           EndSyms,        \* BOOLEAN subset: may blocks carry at_end symbols
+          NoSyms,         \* BOOLEAN subset: may a block have no start symbol
           AnnModes,       \* subset of {"none","blk","bi"}
           WithProxyDel,   \* BOOLEAN: generate retarget_to_proxy deletions
           CfiLayouts,     \* subset of {"none","proc_all","proc_each","proc_rs"}
@@ -93,12 +94,12 @@ MergeCfi(cs) ==
          <<sorted[k], FlattenSeq([i \in 1..Len(SelectSeq(cs, LAMBDA c : c[1] = sorted[k])) |->
                                      SelectSeq(cs, LAMBDA c : c[1] = sorted[k])[i][2]])>>]
 
-MkBlock(i, nb, tpl, tgtIdx, layout, endSym, annMode, annAt, cl) ==
+MkBlock(i, nb, tpl, tgtIdx, layout, endSym, annMode, annAt, cl, noSym) ==
   LET units == TemplateUnits(tpl, i, BName(tgtIdx))
       f == IF IsData(tpl) THEN "" ELSE FnOf(layout, i, nb)
   IN  [kind |-> IF IsData(tpl) THEN "data" ELSE "code",
        units |-> units,
-       syms |-> <<BName(i)>>,
+       syms |-> IF noSym THEN <<>> ELSE <<BName(i)>>,
        esyms |-> IF endSym THEN <<EName(i)>> ELSE <<>>,
        fn |-> f,
        entry |-> (f # "" /\ f = BName(i)),
@@ -108,13 +109,16 @@ MkBlock(i, nb, tpl, tgtIdx, layout, endSym, annMode, annAt, cl) ==
 
 ShapeParams ==
   {p \in [nb : 1..MaxBlocks, tpl : [1..MaxBlocks -> Templates], tgt : 1..MaxBlocks,
-          layout : FnLayouts, es : SUBSET (1..MaxBlocks), am : AnnModes, cl : CfiLayouts,
+          layout : FnLayouts, es : SUBSET (1..MaxBlocks), ns : SUBSET (1..MaxBlocks), am : AnnModes, cl : CfiLayouts,
           annAt : (1..MaxBlocks) \X (0..3)] :
      /\ \A i \in (p.nb + 1)..MaxBlocks : p.tpl[i] = CHOOSE x \in Templates : TRUE
      /\ p.tgt <= p.nb
      /\ ~IsData(p.tpl[p.tgt])
      /\ p.es \subseteq 1..p.nb
      /\ (p.es # {} => TRUE \in EndSyms) /\ Cardinality(p.es) <= 1
+     /\ p.ns \subseteq 1..p.nb /\ Cardinality(p.ns) <= 1 /\ p.tgt \notin p.ns
+     /\ (p.ns # {} => TRUE \in NoSyms)
+     /\ (p.layout # "none" => 1 \notin p.ns /\ 2 \notin p.ns)
      /\ (p.am = "none" => p.annAt = <<1, 0>>)
      /\ (p.am # "none" => p.annAt[1] <= p.nb)
      /\ (p.layout \in {"split", "tail"} => p.nb >= 2 /\ ~IsData(p.tpl[2]))
@@ -126,7 +130,7 @@ MkShape(p) ==
   [isa |-> Isa, fmt |-> "elf",
    sections |-> <<[name |-> ".text",
                    blocks |-> [i \in 1..p.nb |->
-                       MkBlock(i, p.nb, p.tpl[i], p.tgt, p.layout, i \in p.es, p.am, p.annAt, p.cl)]]>>]
+                       MkBlock(i, p.nb, p.tpl[i], p.tgt, p.layout, i \in p.es, p.am, p.annAt, p.cl, i \in p.ns)]]>>]
 
 (***************************************************************************)
 (* The abstract pre-state of a shape, in the projection's format, so that  *)
